@@ -24,11 +24,14 @@ def main(ids):
     names = ids or sorted(d for d in os.listdir(os.path.join(VERIF, "seeded")) if os.path.isdir(os.path.join(VERIF, "seeded", d)))
     names = ["(unchanged tree)/C19", "(unchanged tree)/C20"] + names if not ids else names
     for name in names:
+        props = None
         if name.startswith("(unchanged"):
             prop, patch = name.split("/")[1], None
         else:
             meta = json.load(open(os.path.join(VERIF, "seeded", name, "meta.json")))
             prop, patch = meta["property"], os.path.join(VERIF, "seeded", name, "patch.diff")
+            if not prop.startswith("C"):
+                props = ["C19", "C20"]      # benign changes: both checks must stay quiet
         sh("git -C %s checkout -- ." % WT)
         if patch:
             a = sh("git -C %s apply %s" % (WT, patch))
@@ -36,11 +39,17 @@ def main(ids):
                 out[name] = {"error": "patch does not apply: " + a.stdout[-300:]}
                 continue
         t = time.time()
-        r = subprocess.run([os.path.join(VERIF, "check"), prop, "--tier", "quick"], cwd=VERIF, env=env, stdout=subprocess.PIPE, stderr=subprocess.STDOUT, text=True)
-        lines = r.stdout.splitlines()
-        classes = [l.strip()[len("violation class "):].split(": ")[0] for l in lines if l.startswith("violation class")]
-        out[name] = {"property": prop, "exit": r.returncode, "violation_lines": sum(1 for l in lines if l.startswith("VIOLATION ")),
-                     "classes": classes[:8], "wall_s": round(time.time() - t)}
+        res = {}
+        for pr in (props or [prop]):
+            r = subprocess.run([os.path.join(VERIF, "check"), pr, "--tier", "quick"], cwd=VERIF, env=env, stdout=subprocess.PIPE, stderr=subprocess.STDOUT, text=True)
+            lines = r.stdout.splitlines()
+            classes = [l.strip()[len("violation class "):].split(": ")[0] for l in lines if l.startswith("violation class")]
+            res[pr] = {"exit": r.returncode, "violation_lines": sum(1 for l in lines if l.startswith("VIOLATION ")),
+                       "known_finding_lines": sum(1 for l in lines if l.startswith("KNOWN-FINDING")), "classes": classes[:8]}
+        if props:
+            out[name] = {"expect": "no alarm", "checks": res, "wall_s": round(time.time() - t)}
+        else:
+            out[name] = dict(res[prop], property=prop, wall_s=round(time.time() - t))
         print(name, out[name], flush=True)
         json.dump(out, open(mpath, "w"), indent=1, sort_keys=True)
     sh("git -C %s checkout -- ." % WT)
